@@ -459,27 +459,28 @@ bool Exec<L, MODEL>::step(const Op &op, const OpInfo &info) {
 
   switch (op.kind) {
     // ------------------------------------------------------------ construction / assignment
-    case K_ctor_default: reconstruct(); if (MODEL) m.clear(); break;
-    case K_ctor_cstr: { HeapChars hc(text); reconstruct(static_cast<const char *>(hc.p)); if (MODEL) { m = text; trunc(m); } break; }
-    case K_ctor_str: { std::unique_ptr<std::string> sp(new std::string(text)); reconstruct(static_cast<const std::string &>(*sp)); noteNul(text); if (MODEL) { m = text; trunc(m); } break; }
+    case K_ctor_default: reconstruct(); nul = false; if (MODEL) m.clear(); break;
+    case K_ctor_cstr: { HeapChars hc(text); reconstruct(static_cast<const char *>(hc.p)); nul = false; if (MODEL) { m = text; trunc(m); } break; }
+    case K_ctor_str: { std::unique_ptr<std::string> sp(new std::string(text)); reconstruct(static_cast<const std::string &>(*sp)); nul = text.find('\0') != NPOS; if (MODEL) { m = text; trunc(m); } break; }
     case K_ctor_copy:
       withSameL(src, [&](FS &s) { reconstruct(static_cast<const FS &>(s)); });
-      if (src == SRC_PEER ? pnul : srcNul) nul = true;
+      nul = src == SRC_PEER ? pnul : srcNul;
       if (MODEL) m = srcText;
       break;
     case K_ctor_fs:
       withFs(src, [&](auto &s) { reconstruct(s); });
-      if (srcNul) nul = true;
+      nul = srcNul;
       if (MODEL) { m = srcText; trunc(m); }
       break;
     case K_ctor_move:
       withSameL(src, [&](FS &s) { FS tmp(s); reconstruct(std::move(tmp)); });
-      if (src == SRC_PEER ? pnul : srcNul) nul = true;
+      nul = src == SRC_PEER ? pnul : srcNul;
       if (MODEL) m = srcText;
       break;
     case K_assign_cstr: case K_opassign_cstr: {
       HeapChars hc(text);
       if (op.kind == K_assign_cstr) fs->assign(static_cast<const char *>(hc.p)); else *fs = static_cast<const char *>(hc.p);
+      nul = false;
       if (MODEL) { m = text; trunc(m); }
       break;
     }
